@@ -2,8 +2,15 @@ use std::path::PathBuf;
 use std::time::Instant;
 use vpcore::fw::{install_panic_hook, Ctx, Tier};
 
+#[global_allocator]
+static ALLOC: vpcore::alloc::Counting = vpcore::alloc::Counting;
+
 fn main() {
     let args: Vec<String> = std::env::args().collect();
+    if args.len() >= 2 && args[1] == "c08-child" {
+        install_panic_hook();
+        std::process::exit(vpcore::checks::c08::child_main(&args[2..]));
+    }
     if args.len() < 3 || args[1] != "check" {
         eprintln!("usage: vp check <ID> [--tier quick|thorough] [--seed N] [--replay FILE]");
         std::process::exit(2);
